@@ -5,6 +5,7 @@ CONSTANTS
   Concurrent = FALSE
   ScanAtomic = TRUE
   StopWhenSettled = TRUE
+  Overlap = "never"
   Emit = TRUE
 INVARIANTS Safety EmitInv
 CHECK_DEADLOCK FALSE
